@@ -20,6 +20,8 @@ type Config struct {
 	PhaseB     func(fn *ssa.Function) bool
 	InScope    func(fn *ssa.Function) bool // repo function whose body may be inlined
 	CheckFrame bool
+	AllowRecursion bool // EMIT mode: concrete models, recursion bounded by the model's shape
+	ConcreteMaps   bool // EMIT mode: iterate maps with fully known content concretely
 }
 
 type Obligation struct {
@@ -387,6 +389,67 @@ func (e *Engine) stepBlock(s *State) ([]*State, *pathResult) {
 	}
 }
 
+// concreteMapKeys: the keys of a map whose whole history is in the store chain (fresh object,
+// version-0 base) and whose keys are pairwise syntactically distinct.
+func (e *Engine) concreteMapKeys(s *State, mt *types.Map, m *Term) ([]Value, bool) {
+	if m.K != KAlloc {
+		return nil, false
+	}
+	slot := "mapdom(" + e.typeKey(mt) + ")"
+	h := s.heap.get(slot)
+	if h.ver != 0 {
+		return nil, false
+	}
+	var keys []Value
+	seen := map[string]bool{}
+	for n := h.stores; n != nil; n = n.next {
+		if n.addr[0] != m {
+			if n.addr[0].K != KAlloc {
+				return nil, false
+			}
+			continue
+		}
+		k := Value(n.addr[1:])
+		id := ""
+		for _, t := range k {
+			id += t.key + "|"
+		}
+		if seen[id] {
+			continue
+		}
+		seen[id] = true
+		if n.val != True {
+			return nil, false
+		}
+		keys = append([]Value{k}, keys...)
+	}
+	// distinctness: at most one non-literal key
+	sym := 0
+	for _, k := range keys {
+		for _, t := range k {
+			if !t.IsConst() {
+				sym++
+			}
+		}
+	}
+	if sym > 1 {
+		return nil, false
+	}
+	return keys, true
+}
+
+// concreteIterLoop: the loop is driven by a concretely iterated map.
+func (e *Engine) concreteIterLoop(s *State, f *Frame, lp *loop) bool {
+	for _, in := range lp.header.Instrs {
+		if nx, ok := in.(*ssa.Next); ok {
+			if v, ok := f.regs[nx.Iter]; ok && len(v) == 3 && v[1].K == KInt {
+				return true
+			}
+		}
+	}
+	return false
+}
+
 func (e *Engine) markUnrolled(f *Frame, b *ssa.BasicBlock) bool {
 	if f.unrolled == nil {
 		f.unrolled = map[*ssa.BasicBlock]bool{}
@@ -478,7 +541,7 @@ func (e *Engine) enterBlock(s *State, b *ssa.BasicBlock) bool {
 	f := s.top()
 	from := f.block
 	la := e.loops(f.fn)
-	if lp, isHeader := la.headers[b]; isHeader && !(f.unrolled[b] || (f.loops[b] == nil && e.unrollable(s, f, lp) && e.markUnrolled(f, b))) {
+	if lp, isHeader := la.headers[b]; isHeader && !(f.unrolled[b] || (f.loops[b] == nil && (e.unrollable(s, f, lp) || e.concreteIterLoop(s, f, lp)) && e.markUnrolled(f, b))) {
 		if _, seen := f.loops[b]; seen && la.isBackEdge(from, b) {
 			// back edge: check the invariant, end of path
 			e.checkLoopInvariant(s, f, lp, from, false)
@@ -667,8 +730,17 @@ func (e *Engine) execInstr(s *State, in ssa.Instruction) {
 	case *ssa.Slice:
 		e.sliceOp(s, x)
 	case *ssa.Range:
-		// iterator state: the map/string value itself
-		f.regs[x] = e.get(s, x.X)
+		// iterator state: the map/string value itself; maps whose whole content is known (fresh, with
+		// syntactically distinct keys) are iterated concretely in insertion order
+		v := e.get(s, x.X)
+		if mt, ok := x.X.Type().Underlying().(*types.Map); ok && e.cfg.ConcreteMaps {
+			if keys, ok := e.concreteMapKeys(s, mt, v[0]); ok {
+				e.mapIters = append(e.mapIters, keys)
+				f.regs[x] = Value{v[0], Int(int64(len(e.mapIters) - 1)), Zero}
+				break
+			}
+		}
+		f.regs[x] = v
 	case *ssa.Next:
 		e.next(s, x)
 	case *ssa.DebugRef:
@@ -1186,6 +1258,26 @@ func (e *Engine) next(s *State, x *ssa.Next) {
 		return
 	}
 	mt := rng.X.Type().Underlying().(*types.Map)
+	if len(it) == 3 && it[1].K == KInt {
+		// concrete iteration
+		keys := e.mapIters[it[1].I]
+		idx := int(it[2].I)
+		if idx >= len(keys) {
+			r := Value{False}
+			r = append(r, e.zero(mt.Key())...)
+			r = append(r, e.zero(mt.Elem())...)
+			f.regs[x] = r
+			return
+		}
+		k := keys[idx]
+		f.regs[x.Iter] = Value{it[0], it[1], Int(int64(idx + 1))}
+		val, _ := e.mapLoad(s, mt, it[0], k)
+		r := Value{True}
+		r = append(r, k...)
+		r = append(r, val...)
+		f.regs[x] = r
+		return
+	}
 	pcAt := len(s.pc)
 	symAt := e.symN - 1 // the ok symbol just created belongs to the iteration
 	k := e.freshValue(s, mt.Key(), e.freshName("hv.next.key"))
